@@ -2,7 +2,8 @@ SPEC = {
     "corr": [{"kind": "nf9-wf", "quick": 6000, "thorough": 600000},
              {"kind": "nf9", "quick": 4000, "thorough": 300000}],
     "rule": "nf9-wf: sessions of well-formed generated NetFlow v9 export packets (template / options template / data "
-            "flowsets, padding) with a model-independent expected-decode oracle; nf9: mixed stream with about 12 % "
+            "flowsets, data records of any positive length, flowset padding of 0 .. min(record length - 1, 7) octets) with a "
+            "model-independent expected-decode oracle; nf9: mixed stream with about 12 % "
             "malformed datagrams; non-trivial = the implementation produced a non-error result; distinct = distinct case line",
     "assumptions": ["information model = the table regenerated from ipfix/rfc5102_model.go (lookupElem is opaque in the proofs)",
                     "the template cache is modelled as one map keyed by the 32-bit FNV-1 hash (finding K1: colliding keys share an entry)"],
@@ -18,8 +19,12 @@ META = {
             "error, cache updated; templates announced earlier in the packet are in force for later flowsets: "
             "announced_template_in_force). The encoders and the decidable well-formedness predicates are in "
             "Vflow/Spec/Wire.lean, written from RFC 3954 without reference to the decoder. Preconditions that the proof "
-            "forces and that are stated, not hidden: every data record is longer than 4 octets (known finding K2, "
-            "k2_counterexample proves the hypothesis cannot be dropped: 3 records encoded, 2 decoded), <= 4 padding octets, "
+            "forces and that are stated, not hidden: every data record has a positive length; the padding of a data "
+            "flowset is shorter than the template's record and the padding of a template flowset is at most 4 octets "
+            "(RFC 3954: 0..3); the former hypotheses 'record longer than 4 octets' (finding K2) and '<= 4 padding octets' "
+            "were forced by the decoder's constant `> 4`: under the second, 5..7 octets of padding after records of >= 8 "
+            "octets lost the whole packet (F16). Both are repaired in the code (fix aeca3ca) and gone from the theorems; "
+            "k2_repaired / k3_repaired evaluate the former counterexamples. Further: "
             "flowset length < 65536, non-empty flowsets, a template record has >= 1 field, the data flowset's template is "
             "what Cache.lookup returns on the cache as updated by the preceding flowsets. Nothing is partial. The model is "
             "tied to netflow/v9/decoder.go by the differential correspondence on generated well-formed and malformed "
